@@ -5,8 +5,8 @@
    every operation sequence (C15_wf_invariant). The wake-up of wait_for_reception (condition variable)
    is not modelled: it is exercised with a real second thread by the harness only. *)
 From Coq Require Import ZArith List Bool.
-From CV Require Import Base.Val Base.Bytes Base.Bits Base.Tys Gen.Tables Model.Codec Model.Pdo Model.PdoLink
-  Proofs.Codec_proofs Proofs.Pdo_proofs Proofs.PdoLink_proofs.
+From CV Require Import Base.Val Base.Bytes Base.Bits Base.Tys Gen.Tables Gen.SrcC15 Model.Codec Model.Pdo Model.PdoLink
+  Proofs.Codec_proofs Proofs.Pdo_proofs Proofs.PdoLink_proofs Proofs.Src_eq_c15.
 Import ListNotations.
 Open Scope Z_scope.
 
@@ -55,6 +55,26 @@ Theorem C15_rtr_rule : forall w k m, nth_error (w_maps w) k = Some m ->
   if m_enabled m && m_rtr m then w_sent w ++ [(m_cob m, [], true)] else w_sent w.
 Proof. exact rtr_rule. Qed.
 
+(* Tie to the source text: PdoMap.on_message and remote_request as translated from the CURRENT source by
+   tools/py2coq.py (Gen/SrcC15.v, regenerated on every run) take a frame exactly when the model does, update
+   timestamp and period as the model does, and send the remote frame under the model's condition. *)
+Theorem C15_source_on_message_is_model : forall m can_id data ts dts dper,
+  let r := src_pdo_on_message (m_cob m) (m_task m) (match m_ts m with Some _ => true | None => false end)
+             (match m_ts m with Some t => t | None => dts end)
+             (match m_period m with Some p => p | None => dper end) can_id ts false in
+  let m' := fst (on_message m can_id data ts) in
+  fst (fst r) = accepts m can_id /\
+  (accepts m can_id = true ->
+     m_ts m' = Some (snd r) /\
+     m_period m' = match m_ts m with Some _ => Some (snd (fst r)) | None => m_period m end) /\
+  (accepts m can_id = false -> m' = m).
+Proof. exact src_pdo_on_message_eq. Qed.
+
+Theorem C15_source_remote_request_is_model : forall w k m, nth_error (w_maps w) k = Some m ->
+  w_sent (fst (step w (LRtr k))) =
+  if src_pdo_remote_request_sends (m_enabled m) (m_rtr m) false then w_sent w ++ [(m_cob m, [], true)] else w_sent w.
+Proof. exact src_pdo_remote_request_eq. Qed.
+
 (* ---- non-vacuity: producer map 0 and consumer map 1, layout [BOOLEAN:1, INTEGER16:16], consumer
    subscribed with two callbacks; the hypotheses of C15_end_to_end hold and the run gives -300 ---- *)
 Example C15_nv :
@@ -85,3 +105,5 @@ Print Assumptions C15_reception_updates_exactly_subscribers.
 Print Assumptions C15_reception_callbacks.
 Print Assumptions C15_transmit_sends.
 Print Assumptions C15_rtr_rule.
+Print Assumptions C15_source_on_message_is_model.
+Print Assumptions C15_source_remote_request_is_model.
